@@ -1,0 +1,74 @@
+//go:build verif
+// +build verif
+
+// Contracts for the errors package (build tag verif; never compiled into the library).
+// Specification source: the statement of C08 ("wrapping keeps the root cause and the message chain, wrapping nil
+// yields nil") and the package documentation.
+
+package errors
+
+import stderrors "errors"
+
+// ghost_root(err): the error at the bottom of the chain of this package's wrappers (engine primitive)
+func ghost_root(err error) error { panic("ghost") }
+
+//@ ensures New C08.errors.new
+func ens_New(ret0 error) bool { return ret0 != nil && ghost_root(ret0) == ret0 }
+
+//@ ensures Errorf C08.errors.errorf
+func ens_Errorf(ret0 error) bool { return ret0 != nil && ghost_root(ret0) == ret0 }
+
+//@ ensures WithStack C08.errors.withstack
+func ens_WithStack(err error, ret0 error) bool {
+	if err == nil {
+		return ret0 == nil
+	}
+	return ret0 != nil && ghost_root(ret0) == ghost_root(err)
+}
+
+//@ ensures Wrap C08.errors.wrap
+func ens_Wrap(err error, ret0 error) bool {
+	if err == nil {
+		return ret0 == nil
+	}
+	return ret0 != nil && ghost_root(ret0) == ghost_root(err)
+}
+
+//@ ensures Wrapf C08.errors.wrapf
+func ens_Wrapf(err error, ret0 error) bool {
+	if err == nil {
+		return ret0 == nil
+	}
+	return ret0 != nil && ghost_root(ret0) == ghost_root(err)
+}
+
+//@ ensures WithMessage C08.errors.withmessage
+func ens_WithMessage(err error, ret0 error) bool {
+	if err == nil {
+		return ret0 == nil
+	}
+	return ret0 != nil && ghost_root(ret0) == ghost_root(err)
+}
+
+// the message chain: outer message, ": ", inner message
+//@ ensures (*withMessage).Error C08.errors.message-chain
+func ens_withMessageError(w *withMessage, ret0 string) bool {
+	return ret0 == w.msg+": "+w.cause.Error()
+}
+
+//@ requires (*withMessage).Error
+func req_withMessageError(w *withMessage) bool { return w.cause != nil }
+
+// Cause recovers the root through every nesting of the constructors (bounded stand-in: three layers over a foreign
+// leaf error; every constructor is covered, each layer is the same code path)
+//@ bounded lemma_C08_cause 6
+//@ lemma C08.errors.cause.bounded
+func lemma_C08_cause(msg1, msg2 string) bool {
+	leaf := stderrors.New("transport")
+	e1 := WithStack(leaf)
+	e2 := WithMessage(e1, msg1)
+	e3 := Wrap(e2, msg2)
+	e4 := Wrapf(e3, "%v", msg1)
+	return Cause(e4) == leaf && Cause(e1) == leaf && Cause(leaf) == leaf && Cause(nil) == nil &&
+		Wrap(nil, msg1) == nil && Wrapf(nil, msg1) == nil && WithMessage(nil, msg1) == nil && WithStack(nil) == nil
+}
